@@ -208,7 +208,40 @@ func findLoops(paths []*Path) []*LoopInfo {
 			}
 		}
 	}
-	sort.Slice(order, func(i, j int) bool { return order[i].Index < order[j].Index })
+	// a deterministic order, outer loops first: by the earliest position at which a path enters the header; a loop of
+	// the analysed function before one of a function walked through into it; then by function name and block index
+	// (block indices of different functions collide, and map iteration above has no order)
+	entry := map[*ssa.BasicBlock]int{}
+	for _, p := range paths {
+		for h, at := range p.LoopAt {
+			if cur, ok := entry[h]; !ok || at < cur {
+				entry[h] = at
+			}
+		}
+	}
+	var root *ssa.Function
+	if len(paths) > 0 {
+		root = paths[0].Fn
+	}
+	rank := func(h *ssa.BasicBlock) int {
+		if h.Parent() == root {
+			return 0
+		}
+		return 1
+	}
+	sort.SliceStable(order, func(i, j int) bool {
+		a, b := order[i], order[j]
+		if entry[a] != entry[b] {
+			return entry[a] < entry[b]
+		}
+		if rank(a) != rank(b) {
+			return rank(a) < rank(b)
+		}
+		if a.Parent() != b.Parent() {
+			return a.Parent().String() < b.Parent().String()
+		}
+		return a.Index < b.Index
+	})
 	var out []*LoopInfo
 	for _, h := range order {
 		out = append(out, m[h])
